@@ -115,7 +115,7 @@ def register(T):
             recv = fn.V(e.func.value)
             arms = []
             for cls in ("Tag", "TagList"):
-                info = next((i for i in fn.known.values() if i.spec.qual == f"{cls}.tagify"), None)
+                info = fn.pick(f"{cls}.tagify")
                 if info is None or not info.available:
                     raise T.Untranslatable(f"method {cls}.tagify is not translated")
                 arms.append(f'| "{cls}" => (do pure {fn.call_known(info, [], [], recv=recv)})')
